@@ -44,6 +44,9 @@ def run_control(c, chk):
         r = m.run(f, c.get("prop")) if getattr(m, "WANTS_PROP", False) else m.run(f)
         rs = r if isinstance(r, list) else [r]
         keys = [v["key"] for x in rs for v in x.violations]
+        if c.get("expect_silent"):
+            # behaviour-preserving (or still property-satisfying) edit: the rule must stay quiet
+            return {"name": c["name"], "status": "FALSE-ALARM" if keys else "silent", "keys": keys[:6], "rule": c["rule"]}
         hit = [k for k in keys if c["expect"] in k]
         return {"name": c["name"], "status": "fired" if hit else "MISSED", "keys": keys[:6], "rule": c["rule"]}
     finally:
@@ -68,10 +71,11 @@ def main():
     bad = 0
     for r in results:
         print("%-14s %-8s %s" % (r["name"], r["status"], r.get("why") or ", ".join(r.get("keys", []))[:200]))
-        if r["status"] in ("MISSED", "error"):
+        if r["status"] in ("MISSED", "error", "FALSE-ALARM"):
             bad += 1
-    print("controls: %d applied+fired, %d skipped, %d missed/error" % (
-        sum(1 for r in results if r["status"] == "fired"), sum(1 for r in results if r["status"] == "skipped"), bad))
+    print("controls: %d applied+fired, %d silent (as required), %d skipped, %d missed/error/false-alarm" % (
+        sum(1 for r in results if r["status"] == "fired"), sum(1 for r in results if r["status"] == "silent"),
+        sum(1 for r in results if r["status"] == "skipped"), bad))
     return 1 if bad else 0
 
 
